@@ -67,3 +67,16 @@ package xtype
 //@   requires cfg != nil && t != nil
 //@   assigns nothing
 //@   ensures result != nil
+
+// ---- C09: key-collection loops; the collected slice is sorted before any other use ----
+//@ func Enum.SortedMembers
+//@   props C09
+//@   maprange 1 unordered-result m
+
+//@ func UsageChecker.Unused
+//@   props C09
+//@   maprange 1 unordered-result keys
+
+//@ func UsageChecker.Used
+//@   props C09
+//@   inline
